@@ -177,7 +177,7 @@ Proof.
   assert (cnt_ok c [] []) as C0 by (intros n a _; reflexivity).
   destruct (hexp_fold_inv c W (node_ids c) (copy c) (max_id c) [] [] I0 L0 C0 (gwf_nd c W)) as (P & IE & LE & CE).
   { intros n Hn. split; [exact Hn|intros []]. }
-  cbv zeta in IE, LE, CE. intros E. unfold E, h_to_explicit. cbv iota.
+  cbv zeta in IE, LE, CE. intros E. unfold E. rewrite h_to_explicit_false. change (exp_nodes c None) with (node_ids c).
   set (E' := fst (fold_left hexp_step (node_ids c) (copy c, max_id c))) in *.
   assert (P = []) as ->.
   { destruct P as [|[h m] P']; [reflexivity|]. exfalso.
